@@ -1,12 +1,13 @@
 /-
   Qfx.Model.Session — the session state machine of quickfix, function by function:
-  session.go, session_state.go, in_session.go, resend_state.go, logon_state.go, logout_state.go,
+  session.go, session_state.go (incl. CheckResetTime / ResetSeqTime), in_session.go, resend_state.go, logon_state.go, logout_state.go,
   pending_timeout.go, latent_state.go, not_session_time.go, memory_store.go (as the abstract store).
 
   Inbound messages are ordered (tag, value) lists (the harness builds the bytes from the same list);
   outbound messages are `OutMsg` (MsgType, MsgSeqNum, other observed fields).  Application callbacks are
   scripted by fields of the messages themselves (9001 inbound verdict, 9002 ToApp verdict, 9003 ToApp on
-  resend).  The clock enters as relations only: `@n` time tokens are `now + n` seconds.
+  resend).  The clock enters as relations only: `@n` time tokens are `now + n` seconds; the one absolute clock is the
+  argument of `Ev.resetTime` (CheckResetTime), in seconds since a UTC midnight, chosen by the harness.
   Deliberately NOT tidied: the places where Go inspects `session.State` by type switch
   (`verifySelect`, `processReject`), `onDisconnect` draining the inbound channel through the old state, etc.
 -/
